@@ -32,13 +32,13 @@ struct Ev {
     mo: MO,
     rval: u64,
     wval: u64,
-    /// event id of the write read from (R, U)
-    rf: u8,
+    /// key of the write read from (R, U), see `set_rf`
+    rf: u16,
 }
 
 const INIT_T: u8 = 255;
 const NOLOC: u8 = 255;
-const NORF: u8 = 255;
+const NORF: u16 = u16::MAX;
 
 #[derive(Clone, PartialEq, Eq, Hash)]
 struct XSt {
@@ -96,6 +96,7 @@ pub fn supported(p: &Program) -> bool {
                 | K::UnsyncLoad { .. }
                 | K::WithMut { .. }
                 | K::Await { .. }
+                | K::AwaitSpun { .. }
                 | K::CellRead { .. }
                 | K::CellWrite { .. }
                 | K::Spawn { .. }
@@ -194,7 +195,11 @@ fn succ(p: &Program, s: &XSt, t: usize, variant: Variant) -> Vec<XSt> {
             return out;
         }
     }
-    let mk = |k: EK, loc: usize, mo: MO| Ev { t: t as u8, idx: pc as u8, k, loc: loc as u8, mo, rval: 0, wval: 0, rf: NORF };
+    // events of op `pc` get idx 2*pc+1; an op with two events (AwaitSpun) puts its earlier one
+    // at 2*pc, so that sb is still the order of idx within a thread
+    assert!(pc < 32, "thread too long for the event numbering");
+    let mk = |k: EK, loc: usize, mo: MO| Ev { t: t as u8, idx: (2 * pc + 1) as u8, k, loc: loc as u8, mo, rval: 0, wval: 0, rf: NORF };
+    let mk_early = |k: EK, loc: usize, mo: MO| Ev { t: t as u8, idx: (2 * pc) as u8, k, loc: loc as u8, mo, rval: 0, wval: 0, rf: NORF };
     let dl = |m: MO| if variant == Variant::Rc11Minus { m.demote_load() } else { m };
     let ds = |m: MO| if variant == Variant::Rc11Minus { m.demote_store() } else { m };
     let du = |m: MO| if variant == Variant::Rc11Minus { m.demote_rmw() } else { m };
@@ -252,6 +257,45 @@ fn succ(p: &Program, s: &XSt, t: usize, variant: Variant) -> Vec<XSt> {
                 set_rf(&mut e, wk);
                 push_ev(&mut s2, e);
                 out.push(fin(s2, Res::V(w.wval)));
+            }
+        }
+        K::AwaitSpun { a, mo, want } => {
+            // either the first load reads `want` (0), or one earlier load of the loop read
+            // another value and a later one reads `want` (1); further failed loads add no
+            // constraint that one of them does not already add
+            let fl = floor(s, a);
+            let n = s.mo[a].len();
+            for i2 in fl..n {
+                let w2 = find(s, s.mo[a][i2]);
+                if w2.wval != want {
+                    continue;
+                }
+                let k2 = s.mo[a][i2];
+                {
+                    let mut s2 = s.clone();
+                    let mut e = mk(EK::R, a, dl(mo));
+                    e.rval = want;
+                    set_rf(&mut e, k2);
+                    push_ev(&mut s2, e);
+                    out.push(fin(s2, Res::V(0)));
+                }
+                for i1 in fl..=i2 {
+                    let k1 = s.mo[a][i1];
+                    let w1 = find(s, k1);
+                    if w1.wval == want {
+                        continue;
+                    }
+                    let mut s2 = s.clone();
+                    let mut e1 = mk_early(EK::R, a, dl(mo));
+                    e1.rval = w1.wval;
+                    set_rf(&mut e1, k1);
+                    push_ev(&mut s2, e1);
+                    let mut e2 = mk(EK::R, a, dl(mo));
+                    e2.rval = want;
+                    set_rf(&mut e2, k2);
+                    push_ev(&mut s2, e2);
+                    out.push(fin(s2, Res::V(1)));
+                }
             }
         }
         K::Store { a, v, mo } => {
@@ -359,15 +403,15 @@ fn succ(p: &Program, s: &XSt, t: usize, variant: Variant) -> Vec<XSt> {
     out
 }
 
-// rf is stored as an index into a side table keyed by (t, idx): we pack the key into `rf` + `rval`
-// is not possible, so keep a compact encoding: rf = 16 * t' + idx where t' = 15 for init.
+// rf holds the (t, idx) key of the write, packed: rf = 64 * t' + idx where t' = 63 for init.
 fn set_rf(e: &mut Ev, k: (u8, u8)) {
-    let t = if k.0 == INIT_T { 15 } else { k.0 };
-    e.rf = t * 16 + k.1;
+    let t = if k.0 == INIT_T { 63u16 } else { k.0 as u16 };
+    assert!(k.1 < 64);
+    e.rf = t * 64 + k.1 as u16;
 }
 fn rf_key(_s: &XSt, e: &Ev) -> (u8, u8) {
-    let t = e.rf / 16;
-    (if t == 15 { INIT_T } else { t }, e.rf % 16)
+    let t = e.rf / 64;
+    (if t == 63 { INIT_T } else { t as u8 }, (e.rf % 64) as u8)
 }
 
 // ------------------------------------------------------------------------------------------
@@ -460,7 +504,7 @@ fn check(p: &Program, s: &XSt, _variant: Variant) -> (bool, bool) {
             match op.k {
                 K::Spawn { t: u } => {
                     for a in 0..n {
-                        if evs[a].t as usize == t && (evs[a].idx as usize) < i {
+                        if evs[a].t as usize == t && (evs[a].idx as usize / 2) < i {
                             for b in 0..n {
                                 if evs[b].t as usize == u {
                                     asw[a] |= 1 << b;
@@ -473,7 +517,7 @@ fn check(p: &Program, s: &XSt, _variant: Variant) -> (bool, bool) {
                     for a in 0..n {
                         if evs[a].t as usize == u {
                             for b in 0..n {
-                                if evs[b].t as usize == t && (evs[b].idx as usize) > i {
+                                if evs[b].t as usize == t && (evs[b].idx as usize / 2) > i {
                                     asw[a] |= 1 << b;
                                 }
                             }
